@@ -9,6 +9,8 @@ CONSTANTS
   HandlerSeqs <- L_HSeqs2
   UpProgs <- L_UpProgs
   CRProg <- L_CR
+  Forms = {"fresh"}
+  Colls = {}
   QuitOn = TRUE
   QuitDeferred = TRUE
   DefCap = 0
